@@ -33,7 +33,7 @@ RULE = (
 )
 ASSUMPTIONS = ["bodies whose value is needed to choose a branch (dispatch, bind source, case dispatch, Map iterables) count as needed"]
 FLOORS = {"constructions_checked": (1500, 30000), "evaluations_checked": (4000, 80000), "skipped_bodies_confirmed": (1500, 30000),
-          "windows_checked": (2000, 20000), "apply_order_checked": (100, 1000), "definition_time_checks": (60, 600)}
+          "windows_checked": (2000, 20000), "apply_order_checked": (100, 1000), "definition_time_checks": (60, 600), "namespace_default_runs_at_evaluation": (60, 600)}
 SHARDS_QUICK = 4
 
 
@@ -94,6 +94,18 @@ def definition_time(ctx, r):
     ab.overload("j")(body("ov"))
     ds.with_options({"A": 1}).with_default_options({"B": 2})
     repr(pipe), repr(expr), list(pipe)
+    # option namespaces whose members default to body-carrying evaluatables (dataset, chained dataset, factory),
+    # nested and inherited namespaces; reading their documentation
+    ns_root, ns_dep = dataset(body("ns_root")), dataset(body_a)
+    sub = type("IO", (), {"TARGET": Option("TARGET", default=ns_root), "DEPTH": Option("DEPTH", default_factory=body("ns_factory_sub"))})
+    pre = Option.namespace("PRE")(type("PRE", (), {"Q": Option.auto(ns_dep, doc="inherited"), "__annotations__": {}}))
+    members = {"ROOT": ns_root, "WORKERS": Option.auto(ns_dep, doc="workers"), "COUNTER": Option("COUNTER", default_factory=body("ns_factory")),
+               "__annotations__": {"NAME": str}, "IO": sub, "OLD": pre, "CHAIN": Option("CHAIN", default=Option("X", default=ns_root) >> (lambda v: log.hit("fn", "ns_lam") or v))}
+    order = sorted(members)
+    r.shuffle(order)
+    APP = Option.namespace(r.choice(["APP", "A-PP"]))(type("APP", (), {k: members[k] for k in order}))
+    repr(APP), APP.__doc__, repr(APP.ROOT), APP.IO.__doc__, repr(APP.IO.TARGET), APP.WORKERS.__doc__, getattr(APP.OLD, "__doc__", None)
+    Option("K", default=ns_root), Option("K", default_factory=body("opt_factory")), Option.auto(ns_dep)
     ctx.count("definition_time_checks")
     if log.events:
         ctx.violation("body-ran-at-definition", f"defining interfaces / implementations / dataset classes / pipelines ran {[(e[1], e[2]) for e in log.events][:5]}", {})
@@ -102,6 +114,22 @@ def definition_time(ctx, r):
     Iface.m_def({"D": "x"}), DC({"B": 1}), expr({})
     if not log.events:
         ctx.inconclusive.append("definition-time probes never fire")
+    # a namespace member's default runs at evaluation, and only while its key is absent
+    mark = log.mark()
+    key = APP._key
+    present = {key: {"ROOT": "/x", "WORKERS": 2, "COUNTER": 7, "CHAIN": 1, "IO": {"TARGET": "/t", "DEPTH": 3}, "OLD": {"Q": 1}}}
+    got = (APP.ROOT(present), APP.WORKERS(present), APP.COUNTER(present), APP.IO.TARGET(present), APP.IO.DEPTH(present), APP.CHAIN(present))
+    ran = log.since(mark, ("body", "factory", "fn"))
+    ctx.evaluations += 6
+    if got != ("/x", 2, 7, "/t", 3, 1) or ran:
+        ctx.violation("namespace-default-ran-with-key-present", f"members gave {got}, ran {[(e[1], e[2]) for e in ran][:5]} although every key is present", {})
+        return
+    mark = log.mark()
+    v = APP.ROOT({})
+    ran = [e[2] for e in log.since(mark, ("body",))]
+    ctx.count("namespace_default_runs_at_evaluation")
+    if v != "ns_root" or ran != ["ns_root"]:
+        ctx.violation("namespace-default-not-run-at-evaluation", f"first evaluation of a namespace member without its key gave {v!r} and ran {ran} (its default dataset must run now, once)", {})
 
 
 def evaluation_case(ctx, program, o, tag):
